@@ -15,6 +15,7 @@ package app
 
 import (
 	"fmt"
+	"io/ioutil"
 	"math/big"
 	"os"
 	"strings"
@@ -121,15 +122,15 @@ func (b *c13Batch) WriteSync() {
 // an empty mempool
 type c13Mempool struct{}
 
-func (c13Mempool) Reap(int) types.Txs                   { return nil }
-func (c13Mempool) Update(uint64, types.Txs) error       { return nil }
-func (c13Mempool) GetTxFromCache(common.Hash) types.Tx  { return nil }
-func (c13Mempool) Lock()                                {}
-func (c13Mempool) Unlock()                              {}
-func (c13Mempool) KeyImageExists(lctypes.Key) bool      { return false }
-func (c13Mempool) KeyImagePush(lctypes.Key) bool        { return true }
-func (c13Mempool) KeyImageRemoveKeys([]*lctypes.Key)    {}
-func (c13Mempool) KeyImageReset()                       {}
+func (c13Mempool) Reap(int) types.Txs                  { return nil }
+func (c13Mempool) Update(uint64, types.Txs) error      { return nil }
+func (c13Mempool) GetTxFromCache(common.Hash) types.Tx { return nil }
+func (c13Mempool) Lock()                               {}
+func (c13Mempool) Unlock()                             {}
+func (c13Mempool) KeyImageExists(lctypes.Key) bool     { return false }
+func (c13Mempool) KeyImagePush(lctypes.Key) bool       { return true }
+func (c13Mempool) KeyImageRemoveKeys([]*lctypes.Key)   {}
+func (c13Mempool) KeyImageReset()                      {}
 
 type c13Node struct {
 	app   *LinkApplication
@@ -160,6 +161,11 @@ func c13Open(d *c13Disk, c *c13Ctl) (*c13Node, error) {
 }
 
 func TestBoundedC13(t *testing.T) {
+	// the flat state keeps an undo log file in the working directory: work in a scratch directory, not in /repo
+	if dir, err := ioutil.TempDir("", "verifbounded"); err == nil {
+		defer os.RemoveAll(dir)
+		os.Chdir(dir)
+	}
 	known := os.Getenv("VERIF_KNOWN")
 	sk := crypto.GenPrivKeySecp256k1()
 	metrics.PrometheusMetricInstance.Init(config.DefaultConfig(), sk.PubKey(), log.NewNopLogger())
